@@ -3,7 +3,7 @@
    sumbool mapped to OCaml's own); N, positive, Z, byte are extracted as is. *)
 From Coq Require Extraction.
 From Coq Require Import ExtrOcamlBasic.
-From GoUefi Require Import Base.Bytes Base.Hex Base.Outcome Model.Util Model.WinCert Model.SigList Model.SigDb Model.VarIO Model.Device Model.Pkcs7 Model.VarSign Model.PE Spec.PECheck Spec.P7Check Spec.VarCheck Spec.DevCheck Spec.SafetyCheck Spec.C17Check Spec.C10Check Spec.SigCheck.
+From GoUefi Require Import Base.Bytes Base.Hex Base.Outcome Model.Util Model.WinCert Model.SigList Model.SigDb Model.VarIO Model.Device Model.Pkcs7 Model.VarSign Model.PE Model.PEVerify Spec.PECheck Spec.PESignCheck Spec.P7Check Spec.VarCheck Spec.DevCheck Spec.SafetyCheck Spec.C17Check Spec.C10Check Spec.SigCheck.
 
 Extraction Language OCaml.
 Set Extraction Optimize.
@@ -24,5 +24,6 @@ Extraction "model.ml"
   Spec.P7Check.check_verify Spec.P7Check.check_accepts Spec.P7Check.model_verify Spec.P7Check.check_p7_parse
   Spec.P7Check.p7_parses Spec.P7Check.check_reencode Spec.P7Check.check_sign Base.Sha256.sha256
   Spec.PECheck.check_pe_parse Spec.PECheck.check_pe_flip
+  Spec.PESignCheck.pe_verify_both Spec.PESignCheck.check_signed_image Spec.PESignCheck.model_signed_bytes
   Spec.P7Check.check_efi_sign Spec.P7Check.efi_signed_buffer Spec.P7Check.efi_sign_model Spec.P7Check.efi_sign_tbs_model
   Model.Pkcs7.parse_authenticode Model.Pkcs7.authenticode_verify Model.Pkcs7.sign_authenticode.
